@@ -21,6 +21,8 @@ type Report struct {
 	wallS   float64
 	cfg     SolverCfg
 	corpus  *corpusResult
+	// contracts whose function does not exist any more (all properties / this property)
+	orphans, orphansServing []string
 }
 
 func buildReport(p *Program, o checkOpts, results []*FuncResult, obs, vac []*Obligation, seed int, loadS, wallS float64, cfg SolverCfg) *Report {
@@ -88,6 +90,9 @@ func (r *Report) emit(o checkOpts, toolErrs []string) int {
 			if c.Verdict == "sat" && obl.Verdict != "sat" {
 				obl = c
 			}
+			if c.Verdict == "refuted" && obl.Verdict != "sat" && obl.Verdict != "refuted" {
+				obl = c
+			}
 			if c.Verdict == "disagree" {
 				disagree = true
 			}
@@ -104,9 +109,13 @@ func (r *Report) emit(o checkOpts, toolErrs []string) int {
 			continue
 		}
 		violations++
-		if obl.Verdict != "unbound" && !(obl.Verdict != "sat" && unboundFuncs[obl.Func]) {
-			// a clause that does not bind is neither checked nor assumed, so an obligation of the same function that
-			// merely could not be discharged may be a consequence of the missing clause; only a refutation counts there
+		// A clause that does not bind is neither checked nor assumed, so an obligation of the same function that merely
+		// could not be discharged may be a consequence of the missing clause; the same holds when a function under
+		// contract has disappeared (its body lives on somewhere without its contract) and for an obligation reached
+		// through a loop that has no invariant (nothing is known after such a loop). Only a refutation counts there.
+		needsContract := unboundFuncs[obl.Func] || len(r.orphans) > 0 || strings.Contains(obl.PathDesc, "(no-invariant)")
+		isDecided := obl.Verdict != "unbound" && !(obl.Verdict != "sat" && obl.Verdict != "refuted" && needsContract)
+		if isDecided {
 			decided++
 		}
 		rp := r.writeReplay(o, obl)
@@ -114,7 +123,11 @@ func (r *Report) emit(o checkOpts, toolErrs []string) int {
 		if !rp.reproduced {
 			line += " no-failing-input-found"
 		}
-		violationLines = append(violationLines, line)
+		if isDecided {
+			// obligations that are merely undecided (see above) are listed as failed, but only the decided ones are
+			// reported as violations of the property
+			violationLines = append(violationLines, line)
+		}
 		why := ""
 		if obl.Unbound != "" {
 			why = " reason: " + obl.Unbound
@@ -147,9 +160,17 @@ func (r *Report) emit(o checkOpts, toolErrs []string) int {
 	// loop they describe is gone) and every obligation that could be generated is discharged, nothing shows that the
 	// property is violated: the run is undecided. That is reported as a tool error (exit 2), not as a violation.
 	if violations > 0 && decided == 0 {
-		toolErrs = append(toolErrs, fmt.Sprintf("%d contract clause(s) do not bind to the current code or could not be discharged next to such a clause, and no obligation is refuted: the property is undecided until the contracts are migrated", violations))
+		toolErrs = append(toolErrs, fmt.Sprintf("%d contract clause(s) do not bind to the current code or could not be discharged next to such a clause, a vanished function or a loop without invariant, and no obligation is refuted: the property is undecided until the contracts are migrated", violations))
 		violationLines = nil
 		violations = 0
+	}
+	if violations > 0 {
+		violations = decided
+		for _, e := range r.orphansServing {
+			fmt.Println("NOTE (the violation stands without it):", e)
+		}
+	} else {
+		toolErrs = append(toolErrs, r.orphansServing...)
 	}
 	nf := 0
 	for _, fr := range r.results {
